@@ -526,6 +526,10 @@ void h_make_unmake(void) {
     __CPROVER_havoc_object(&pos); __CPROVER_havoc_object(&m); __CPROVER_havoc_object(&ui);
     __CPROVER_assume(pos.nnEval == 0 || pos.nnEval == &nn);
     __CPROVER_assume(PIECEVALUES_OK && MTRL_RANGE_TIGHT && castle_tbl_ok() && epmask_ok() && wf(&pos) && mv_shape(&pos, &m));
+#ifdef CASE_MU
+    /* complete case split on the kind of the moving piece (6 cases, each a separate run) */
+    __CPROVER_assume(((pos.squares[m.from_] - 1) % 6) == CASE_MU);
+#endif
     ghost_pos0 = pos;
     U64 h0 = ghost_H, ph0 = ghost_PH; unsigned mat0 = ghost_MAT; long long wm0 = ghost_WM, bm0 = ghost_BM, wp0 = ghost_WP, bp0 = ghost_BP;
     Position_makeMove(&pos, &m, &ui);
@@ -580,6 +584,8 @@ GROUPS = [
     Group('staticInitialize', 'h_staticInitialize', enforce='Position_staticInitialize', min_props=5),
     Group('makeMove', 'h_makeMove', enforce='Position_makeMove', replace=_MUT + _NN, min_props=30, timeout=3000),
     Group('make_unmake', 'h_make_unmake', replace=_MUT + _NN + ('BitBoard_firstSquare',), min_props=30, timeout=3000, tier='thorough'),
+    Group('make_unmake_split', 'h_make_unmake', replace=_MUT + _NN + ('BitBoard_firstSquare',), min_props=30, timeout=3000, tier='thorough',
+          cases=('case', [('CASE_MU=%d' % k,) for k in range(6)])),
     Group('fold_lemma', 'h_fold_lemma', cases=('KK', list(range(64))), min_props=4, timeout=900, unwind=65),
     Group('serialize', 'h_serialize', enforce='Position_serialize', min_props=5),
     Group('historyHash', 'h_historyHash', enforce='Position_historyHash', replace=('BitBoard_bitCount',), min_props=3),
